@@ -11,6 +11,7 @@ import FqModel.Binary
     keys <B>               obs(B) ; .size ; .start ; .stop ; length ; .unit ; obs(B.bits) ; obs(B.bytes)
     expl <B>               obs(B) ; obs(B|explode)
     num <n>                obs(n|tobits) ; obs(n|tobits|tonumber) ; obs([n]|tobytes) ; obs(n|tobytes)
+    (dvs HEX FORMAT PATH)  leaf: a SYNTHETIC decode value (no input bits; found by `._bits == null`): never convertible
     bad <V>                obs(V|tobits) ; obs(V|tobytes) ; obs([V]|tobytes) ; obs(V|to_hex) ; obs(V|tobytesrange)
     memb <N>               obs(N) ; obs([N]|tobytes) ; obs([1,"a",N]|tobytes) ; obs([N,("a"|tobits)]|tobytes) ; obs([[N]]|tobits)
                            N a number expression whose Go type may be *big.Int (results of .[i], .size, tonumber, `- k`)
@@ -75,6 +76,7 @@ partial def toE : SX → Option E
     let st ← st.toNat?
     let ln ← ln.toNat?
     pure (.dv (bytesToBits bytes) st ln)
+  | .list [.atom "dvs", .atom h, .atom _fmt, .atom _path] => (bytesOfHex h).map fun _ => E.dvSyn
   | .list [.atom "tobits", x] => (toE x).map (E.toBits 1 false 0)
   | .list [.atom "tobytes", x] => (toE x).map (E.toBits 8 false 0)
   | .list [.atom "tobitsr", x] => (toE x).map (E.toBits 1 true 0)
@@ -312,6 +314,7 @@ partial def walkMembers : List E → List String → List Item × List E × List
       | .null => ([.convErr "err:notbinary"], [], os)
       | .bool _ => ([.convErr "err:notbinary"], [], os)
       | .obj => ([.convErr "err:notbinary"], [], os)
+      | .dvSyn => ([.convErr "err:synthetic"], [], os)         -- flagged synthetic by the harness (._bits == null)
       | .arr xs => walkMembers xs os
       | .dv .. =>
         match os with
